@@ -88,9 +88,19 @@ def value_fn(spec, vidx, uid):
 
 
 class ProbeRunner(SimulationRunner):
-    def __init__(self, spec):
-        super().__init__(read_command_line_args=False)
-        self.update_progress_function_style = None
+    def __init__(self, spec, argv=None, default_progressbar=False):
+        if argv is not None:
+            import sys
+            old_argv = sys.argv
+            sys.argv = list(argv)
+            try:
+                super().__init__(read_command_line_args=True)
+            finally:
+                sys.argv = old_argv
+        else:
+            super().__init__(read_command_line_args=False)
+        if not default_progressbar:
+            self.update_progress_function_style = None
         self.spec = spec
         self.rep_max = spec.rep_max
         for name, val in spec.fixed.items():
@@ -126,6 +136,7 @@ class ProbeRunner(SimulationRunner):
         sr.add_result(r)
         sr.add_new_result("cnt", Result.SUMTYPE, 1)
         sr.add_new_result("ratio", Result.RATIOTYPE, value_fn(self.spec, vidx, uid), 4)
+        sr.add_result(Result.create("last", Result.MISCTYPE, uid, accumulate_values=True))
         return sr
 
     def _keep_going(self, current_params, current_sim_results, current_rep):
@@ -271,7 +282,8 @@ def check_run(ctx, runner, s, tag, label, uid0):
     ntr = len(runner.trace)
     runner_trace = list(runner.trace)
     try:
-        runner.simulate()
+        with core.silence_stdout():
+            runner.simulate()
     except SkipThisOne as e:
         ctx.ev("call-trace", False, cls="SkipThisOne-propagated:first-attempt"
                if s.skip_kind == "first" else "SkipThisOne-propagated",
@@ -305,6 +317,10 @@ def check_run(ctx, runner, s, tag, label, uid0):
         ctx.ev("stored-results", list(ids) == w["ids"], cls="ids-merged-exactly-once",
                detail=lambda: {**tag, "run": label, "variation": v, "got": list(ids),
                                "want": w["ids"]})
+        lastv = list(res["last"][v].get_result_accumulated_values())
+        ctx.ev("stored-results", lastv == w["ids"] and res["last"][v].get_result() == w["ids"][-1],
+               cls="misc-result-merged", detail=lambda: {**tag, "run": label, "variation": v,
+                                                         "got": lastv, "want": w["ids"]})
         ctx.ev("stored-results", res["cnt"][v].get_result() == w["reps"] and
                res["ids"][v].get_result() == sum(w["ids"]) and
                res["ratio"][v].get_result() == w["ratio"] and
@@ -363,7 +379,10 @@ def check_lookup(ctx, runner, s, tag, rng):
 def case_runner(ctx, rng, idx):
     s = gen_spec(rng)
     tag = spec_tag(s)
-    okc, runner = ctx.call("call-trace", ProbeRunner, s, cls="constructor", detail=tag)
+    default_pb = idx % 5 == 2          # the library's default (text) progress bar stays on
+    tag = {**tag, "default_progressbar": default_pb}
+    okc, runner = ctx.call("call-trace", lambda: ProbeRunner(s, default_progressbar=default_pb),
+                           cls="constructor", detail=tag)
     if not okc:
         return
     if rng.random() < 0.3:
@@ -390,7 +409,8 @@ def case_runner(ctx, rng, idx):
         want_trace0, _, _ = model(s, expected_variations(s), 0)
         runner.abort_at = int(rng.integers(0, len(want_trace0)))
         try:
-            runner.simulate()
+            with core.silence_stdout():
+                runner.simulate()
             ctx.tally("abort-not-reached")
         except RuntimeError:
             ctx.tally("aborted-first-simulate")
@@ -426,17 +446,27 @@ def case_single(ctx, rng, idx):
     tag = spec_tag(s)
     variations = expected_variations(s)
     vsel = int(rng.integers(0, len(variations)))
+    if idx % 4 == 1:
+        vsel = 0                  # (the index most often used, and a falsy one)
     wd = os.path.join(core.workdir(), "single_%d" % idx)
     os.makedirs(wd, exist_ok=True)
-    runner = ProbeRunner(s)
+    # a third of the runs go the way the repository's simulators are started:
+    # the index comes from the command line and simulate_do_what_i_mean() decides
+    via_helper = idx % 3 == 1
+    runner = ProbeRunner(s, argv=["prog", "--index", str(vsel)]) if via_helper else ProbeRunner(s)
     runner.set_results_filename(os.path.join(wd, "res_{fix0}" if "fix0" in s.fixed and
                                              not isinstance(s.fixed["fix0"], np.ndarray)
                                              else os.path.join(wd, "res")))
     runner.partial_results_folder = os.path.join(wd, "partial")
-    tag = {**tag, "variation": vsel}
+    tag = {**tag, "variation": vsel, "via_simulate_do_what_i_mean": via_helper}
     want_trace, want, _ = model(s, [variations[vsel]], 0)
     try:
-        runner.simulate(vsel if rng.random() < 0.5 else str(vsel))
+        if via_helper:
+            from pyphysim.simulations import simulationhelpers as SH
+            with core.silence_stdout():
+                SH.simulate_do_what_i_mean(runner)
+        else:
+            runner.simulate(vsel if rng.random() < 0.5 else str(vsel))
     except SkipThisOne as e:
         ctx.ev("single-variation", False, cls="SkipThisOne-propagated:first-attempt"
                if s.skip_kind == "first" else "SkipThisOne-propagated",
